@@ -4,6 +4,7 @@ From Coq Require Import List NArith ZArith QArith Bool String.
 Import ListNotations.
 From JR Require Import Backoff Backoff_Proofs Conn Conn_Proofs.
 From JRGen Require Extracted.
+From JR Require Skeletons.
 
 (* backoff.next as it is in /repo now: the float-domain clamp precedes the conversion; formula 1.5^attempt + jitter;
    the caller's retry loop paces itself with the same function (methodMin/MaxRetryDelay) *)
@@ -11,7 +12,14 @@ Theorem c05_source_facts :
   Extracted.backoff_clamps_before_convert = true /\
   Extracted.backoff_constants = ["minf * math.Pow(1.5, float64(attempt))"; "durf + rand.Float64() * minf"]%string /\
   Extracted.methodMinRetryDelay = 100000000%Z /\ Extracted.methodMaxRetryDelay = 600000000000%Z /\
-  Extracted.retry_condition = "resp.Error != nil && resp.Error.Code == eTempWSError && fn.retry"%string.
+  Extracted.retry_condition = "resp.Error != nil && resp.Error.Code == eTempWSError && fn.retry"%string /\
+  (* the caller's retry loop is left in four ways only (request could not be handed over / foreign id / undecodable
+     result / the response is not a temporary connection error of a retry-tagged method) and otherwise sleeps the backoff
+     and goes round again: whether it goes on never depends on the caller's context *)
+  Extracted.retry_loop_leaves =
+    ["if err != nil: return"; "if !fn.notify && resp.ID != req.ID: return";
+     "if err := json.Unmarshal(resp.Result, val.Interface()); err != nil: return"; "if !retry: break"]%string /\
+  Extracted.retry_loop_tail = ["vhook(""call.retry"", fn.client, req.ID, attempt)"; "time.Sleep(b.next(attempt))"]%string.
 Proof. repeat split; reflexivity. Qed.
 
 (* redial attempts are spaced by the backoff, never a busy loop: for every attempt number (negative and beyond 2^31
@@ -101,6 +109,14 @@ Proof.
   intros s id c L R P G. unfold step. rewrite L, P, G, R. simpl. split; [eexists; reflexivity|reflexivity].
 Qed.
 
+(* the functions this property's model is an abstraction of still have the control / locking / shared-state skeleton the
+   model was written against (Skeletons.v, by hand; Extracted.v, regenerated from /repo) *)
+Theorem c05_code_skeletons :
+  JRGen.Extracted.effects_tryReconnect = JR.Skeletons.tryReconnect /\
+  JRGen.Extracted.effects_handleWsConn = JR.Skeletons.handleWsConn.
+Proof. repeat split; reflexivity. Qed.
+
+Print Assumptions c05_code_skeletons.
 Print Assumptions c05_source_facts.
 Print Assumptions c05_backoff_bounds.
 Print Assumptions c05_backoff_monotone.
